@@ -503,6 +503,9 @@ def _leaf_name(e, adt):
         elif x[0] == "discr":
             walk(x[1])
     walk(e)
+    if not names and not calls:
+        # nothing of the struct in it: a bare parameter (renamed to a field by the caller's alias table)
+        names = {"param:%d" % l[4] for l in sym_leaves(e) if l[0] == "place" and not l[2] and len(l) > 4 and isinstance(l[4], int)}
     return sorted(names | calls)
 
 
@@ -588,7 +591,20 @@ def bits(ctx):
     if b is None:
         raise AnchorLost("PublishTx::fixed_hdr")
     want = dict(flags["publish_header"])
-    out += _or_tree_check(ctx, "publish_header", b, info["adt"], {k: v for k, v in want.items() if k != "type"}, {}, const_terms={types["PUBLISH"] << want["type"]: "type"})
+    hdr_alias = {}
+    if b.fn.get("arg_count") and info["adt"].split("::")[-1] not in b.locals[1]["ty"]:
+        # an associated function that is handed the three fields (`Self::fixed_hdr(self.dup, self.qos, self.retain)`):
+        # each parameter stands for the field every call site passes in its position
+        per = {}
+        for hb in [info["encode"]] + list(info["helpers"].values()):
+            for i, t in hb.calls(r"::fixed_hdr$"):
+                for k, o in enumerate(t["ops"]):
+                    fs = {a[2] for a in hb.atoms(o) if a[0] == "field" and a[1] == info["adt"]}
+                    per.setdefault(k + 1, []).append(fs)
+        for k, lst in per.items():
+            if lst and all(len(x) == 1 for x in lst) and len({tuple(x) for x in lst}) == 1:
+                hdr_alias["param:%d" % k] = sorted(lst[0])[0]
+    out += _or_tree_check(ctx, "publish_header", b, info["adt"], {k: v for k, v in want.items() if k != "type"}, hdr_alias, const_terms={types["PUBLISH"] << want["type"]: "type"})
     # SubscriptionOptions::encode
     so = ctx.flat(ctx.body(r"codec::\w+::SubscriptionOptions as core::utils::Encode>::encode$"))
     val = None
@@ -726,6 +742,28 @@ def ids(ctx):
             base = nm[:-3] if nm.endswith("Ref") else nm
             want = props["ids"].get(base)
             out.append(Inst("IDS", "PROPERTY_ID:%s" % nm, want == c["val"], "src/core/properties.rs", "%s::PROPERTY_ID = %s" % (nm, c["val"]), "%s" % want))
+    # a packet type whose impl of the header trait defines no FIXED_HDR of its own takes the trait's default: the
+    # extractor evaluates constants per impl, so that value is not seen.  A default shared with the types whose
+    # reserved flags are 0 cannot also give the header of a type whose reserved flags are not 0 (PUBREL: 0x62).
+    hdr_traits = {c["trait"] for c in ctx.facts.consts if c["name"] == "FIXED_HDR" and c.get("trait")}
+    hdr_traits |= {im["trait"]["path"] for im in ctx.facts.impls if im.get("trait") and any(it["name"] == "FIXED_HDR" for it in im["items"])}
+    for im in ctx.facts.impls:
+        tr = im.get("trait")
+        if not tr or not (tr["path"] in hdr_traits or tr["path"].split("::")[-1] == "FixedHeader"):
+            continue
+        if any(it["name"] == "FIXED_HDR" for it in im["items"]):
+            continue
+        st = im.get("self_ty") or im.get("self_adt") or ""
+        tn = _packet_of(st)
+        if tn is None or tn == "PUBLISH":
+            continue
+        want = (types[tn] << 4) | fl[tn]
+        if fl[tn]:
+            out.append(Inst("IDS", "FIXED_HDR:%s" % short_ty(_norm(st)), False, "src/codec", "%s takes FIXED_HDR from the default of %s, which it shares with packet types whose reserved flags are 0" % (short_ty(_norm(st)), tr["path"]),
+                            "0x%02x (type %d, flags %d) defined for this type" % (want, types[tn], fl[tn])))
+        else:
+            out.append(Inst("IDS", "FIXED_HDR:%s" % short_ty(_norm(st)), True, "src/codec", "NOT DECIDED: %s takes FIXED_HDR from the default of %s (not evaluated per type)" % (short_ty(_norm(st)), tr["path"]),
+                            "0x%02x" % want, {"undecided": True}))
     # wire types: Property::try_decode arm -> decoded primitive
     pd = ctx.body(r"core::properties::Property as core::utils::TryDecode>::try_decode$")
 
@@ -833,6 +871,8 @@ def varint_thresh(ctx):
             continue
         fn = [it for it in im["items"] if it["kind"] == "fn" and it["name"] == "try_from"][0]
         b = ctx.world.body(fn["def"])
+        if not any(st["k"] == "assign" and st["rv"]["k"] == "agg" and (st["rv"].get("adt") or "").endswith("VarSizeIntState") for i in b.reach for st in b.blocks[i]["stmts"]):
+            b = ctx.flat(b)             # the states are built in a private helper the conversions share: looked at in place
         ctx.note(b)
         n += 1
         # per constructed state: the upper bound in force
